@@ -215,7 +215,7 @@ CLAIMS = {
              'write monitor. Partial: bytecode-level switch points inside one line, C-level atomicity of attribute stores and the '
              'real lock are runtime behaviour the model cannot exhibit; the line-level scheduler explores schedules (a search), '
              'only the model is proved',
-        technique='Lean 4 proof (invariant over all schedules of the interleaving model) + event-replay correspondence + '
+        technique='Lean 4 proof (invariant over all schedules of the interleaving model; the order of a call\'s actions on the shared volatile state is regenerated from String.__call__ / cook on every run and proved to be the thread program of the model: gen_call_program_is_model, gen_call_program_publishes_last) + event-replay correspondence + '
                   'shared-write monitor + deterministic line-level scheduler as failing-schedule search',
         ref='DESIGN.md §5 C18'),
     'C05': dict(
